@@ -65,6 +65,11 @@ func c07NewWorldOrder(reversed bool) *c07World {
 	}
 	dirs.SetRootDir(root)
 	st := state.New(nil)
+	return &c07World{st: st, runner: c07NewRunner(st, reversed)}
+}
+
+// a fresh TaskRunner over the given state with the four real managers (what a snapd restart does)
+func c07NewRunner(st *state.State, reversed bool) *state.TaskRunner {
 	runner := state.NewTaskRunner(st)
 	// registration order = order of Blocked.verdicts
 	hookMgr, err := hookstate.Manager(st, runner)
@@ -84,7 +89,7 @@ func c07NewWorldOrder(reversed bool) *c07World {
 			panic(err)
 		}
 	}
-	return &c07World{st: st, runner: runner}
+	return runner
 }
 
 // caller holds the state lock
@@ -242,6 +247,11 @@ type c07Step struct {
 	// Guarded: with Abort, skip the abort when a task of the change is already Done (Change.Abort on such a change can
 	// panic in this snapd version, finding 11 of DESIGN.md; not this property's business)
 	Guarded bool `json:"guarded,omitempty"`
+	// Restart: snapd restarts - a fresh TaskRunner (and managers) over the same state; the goroutines of the old runner
+	// are gone (their stubs stay parked for ever), tasks in Doing are run again
+	Restart bool `json:"restart,omitempty"`
+	// SetBlocked: TaskRunner.SetBlocked with the driver's predicate 0 (never blocked) or 1 (one task at a time)
+	SetBlocked *int `json:"setblocked,omitempty"`
 }
 
 type c07RIn struct {
@@ -297,6 +307,10 @@ func c07AbortFamily() []c07RIn {
 		// both tasks in ONE change, independent of each other: `running` also contains tasks of the candidate's own change
 		ins = append(ins, c07RIn{Changes: [][]c07Task{{x, y}}, Chain: []bool{false},
 			Steps: []c07Step{{Ensure: true}, {Ensure: true}, {Finish: 0}, {Ensure: true}, {Ensure: true}}})
+		// snapd restarts while X executes: the fresh runner has no goroutine, X (Doing) and Y are both candidates again and
+		// exactly one of them is started; after it is done the other one runs
+		ins = append(ins, c07RIn{Changes: [][]c07Task{{x}, {y}}, Chain: []bool{false, false}, Deferred: []bool{false, true},
+			Steps: []c07Step{{Ensure: true}, {Spawn: c07Int(1)}, {Restart: true}, {Ensure: true}, {Ensure: true}, {Finish: 0}, {Ensure: true}, {Ensure: true}}})
 		// aborted by the user
 		ins = append(ins, c07RIn{Changes: [][]c07Task{{x}, {y}}, Chain: []bool{false, false}, Deferred: []bool{false, true},
 			Steps: []c07Step{{Ensure: true}, {Spawn: c07Int(1)}, {Abort: c07Int(0)}, {Ensure: true}, {Ensure: true}, {Finish: 0}, {Ensure: true}, {Ensure: true}}})
@@ -314,6 +328,15 @@ func c07RGen(r *vh.Rand, tier string, n int) []c07RIn { return c07RGenMode(r, n,
 
 func c07RGenMode(r *vh.Rand, n int, mode string) []c07RIn {
 	ins := c07Scripted(mode)
+	if mode == "setblocked" {
+		// SetBlocked replaces the registered predicates: never blocked / one task at a time; then a restart restores them
+		for _, k := range []int{0, 1} {
+			hook := c07Task{Kind: 0, Snap: 0}
+			ins = append(ins, c07RIn{Mode: mode, Changes: [][]c07Task{{hook, {Kind: 3, Snap: -1}, {Kind: 8, Snap: -1}}, {hook, {Kind: 4, Snap: -1}, {Kind: 2, Snap: -1}}},
+				Chain: []bool{false, false},
+				Steps: []c07Step{{SetBlocked: c07Int(k)}, {Ensure: true}, {Ensure: true}, {Finish: 0}, {Ensure: true}, {Restart: true}, {Ensure: true}, {Finish: 0}, {Ensure: true}}})
+		}
+	}
 	if mode == "" {
 		ins = append(ins, c07AbortFamily()...)
 	}
@@ -335,6 +358,9 @@ func c07RGenMode(r *vh.Rand, n int, mode string) []c07RIn {
 			in.Changes = append(in.Changes, []c07Task{{Kind: c07CleanupKind, Snap: -1}})
 			in.Chain = append(in.Chain, false)
 		}
+		if mode == "setblocked" {
+			in.Steps = append(in.Steps, c07Step{SetBlocked: c07Int(rr.Intn(2))})
+		}
 		in.Steps = append(in.Steps, c07Step{Ensure: true})
 		for k := rr.Range(4, 24); k > 0; k-- {
 			switch x := rr.Intn(20); {
@@ -342,6 +368,8 @@ func c07RGenMode(r *vh.Rand, n int, mode string) []c07RIn {
 				in.Steps = append(in.Steps, c07Step{Ensure: true})
 			case x < 10: // user abort, usually while handlers of the change are executing
 				in.Steps = append(in.Steps, c07Step{Abort: c07Int(rr.Intn(len(in.Changes))), Guarded: true}, c07Step{Ensure: true})
+			case x == 19 && rr.Chance(1, 2): // snapd restarts
+				in.Steps = append(in.Steps, c07Step{Restart: true}, c07Step{Ensure: true})
 			case x < 12: // a handler fails: its lane(s) are aborted
 				in.Steps = append(in.Steps, c07Step{Finish: rr.Intn(8), Fail: true}, c07Step{Ensure: true})
 			default:
@@ -420,10 +448,14 @@ func c07RExec(in c07RIn) vh.Out {
 		block(t.ID(), tb)
 		return nil
 	}
-	for _, k := range c07Kinds {
-		w.runner.AddHandler(k, stub, nil)
+	register := func() {
+		for _, k := range c07Kinds {
+			w.runner.AddHandler(k, stub, nil)
+		}
+		w.runner.AddCleanup(c07Kinds[c07CleanupKind], cleanup)
 	}
-	w.runner.AddCleanup(c07Kinds[c07CleanupKind], cleanup)
+	register()
+	predMode := -1 // >= 0 after SetBlocked
 
 	chgs := make([]*state.Change, len(in.Changes))
 	spawn := func(ci int) { // caller holds the state lock
@@ -471,6 +503,33 @@ func c07RExec(in c07RIn) vh.Out {
 			w.st.Unlock()
 			continue
 		}
+		if s.Restart {
+			g.mu.Lock()
+			g.waiting = map[string]chan struct{}{}
+			g.executing = map[string]bool{}
+			g.failing = map[string]bool{}
+			g.mu.Unlock()
+			w.runner = c07NewRunner(w.st, false)
+			register()
+			predMode = -1
+			tags["restart"] = true
+			if len(state.VerifTombIDs(w.runner)) != 0 {
+				panic("fresh runner has tombs")
+			}
+			cases = append(cases, "(CTombs [])")
+			continue
+		}
+		if s.SetBlocked != nil {
+			predMode = *s.SetBlocked
+			if predMode == 0 {
+				w.runner.SetBlocked(func(*state.Task, []*state.Task) bool { return false })
+			} else {
+				predMode = 1
+				w.runner.SetBlocked(func(_ *state.Task, running []*state.Task) bool { return len(running) > 0 })
+			}
+			tags["setblocked"] = true
+			continue
+		}
 		if s.Abort != nil {
 			w.st.Lock()
 			if ci := *s.Abort; ci >= 0 && ci < len(chgs) && chgs[ci] != nil {
@@ -504,6 +563,10 @@ func c07RExec(in c07RIn) vh.Out {
 				id := t.ID()
 				if before[id] {
 					continue
+				}
+				if t.Status() == state.DoingStatus { // no goroutine (restart): run again
+					runnable = append(runnable, id)
+					tags["doing-rerun-candidate"] = true
 				}
 				if t.Status() == state.DoStatus {
 					ok := t.AtTime().IsZero() || !time.Now().Before(t.AtTime())
@@ -583,7 +646,11 @@ func c07RExec(in c07RIn) vh.Out {
 				tags["concurrent-handlers"] = true
 			}
 			g.mu.Lock()
-			cases = append(cases, "(CPass "+vh.CoqList(coqBefore)+" "+g.coqSet(handlersAfter)+" "+g.coqSet(idle)+" "+vh.CoqBool(someBlocked)+")")
+			head := "(CPass "
+			if predMode >= 0 {
+				head = fmt.Sprintf("(CPassP %d%%N ", predMode)
+			}
+			cases = append(cases, head+vh.CoqList(coqBefore)+" "+g.coqSet(handlersAfter)+" "+g.coqSet(idle)+" "+vh.CoqBool(someBlocked)+")")
 			g.mu.Unlock()
 		} else {
 			g.mu.Lock()
@@ -628,6 +695,12 @@ func TestVerifC07Run(t *testing.T) { vh.Run(c07RGen, c07RExec) }
 
 // the same scenarios (scripted reproductions first, every random one with a cleanup-capable change), evaluated by the
 // cleanup monitor: update-gadget-assets executing while a cleanup goroutine exists
+// scenarios in which TaskRunner.SetBlocked replaced the predicate list (compared with the model only: production code
+// never calls SetBlocked and the exclusions are not promised then)
+func TestVerifC07SetBlocked(t *testing.T) {
+	vh.Run(func(r *vh.Rand, tier string, n int) []c07RIn { return c07RGenMode(r, n, "setblocked") }, c07RExec)
+}
+
 func TestVerifC07Cleanup(t *testing.T) {
 	vh.Run(func(r *vh.Rand, tier string, n int) []c07RIn { return c07RGenMode(r, n, "cleanup") }, c07RExec)
 }
